@@ -5,91 +5,18 @@ through the function atoms (exp, log, sqrt, sin, cos, erf, lgamma, pow) using th
 """
 import math
 import z3
-from .core import Sym, SymB, NAN, CTX, ONE, fr, rv, ite, Unsupported, sym_exp, sym_log, sym_sin, sym_cos, sym_digamma, as_sym
+from .core import Sym, SymB, NAN, CTX, ONE, fr, rv, ite, Unsupported, sym_exp, sym_log, sym_sin, sym_cos, sym_digamma, as_sym, Eval
 
 _2_SQRTPI = 2.0 / math.sqrt(math.pi)
 
 
-class Differ:
+class Differ(Eval):
     def __init__(self, var):
         self.var = var.n if isinstance(var, Sym) else var
         self.vid = self.var.get_id()
         self.dmemo = {}
         self.vmemo = {}
         self.depmemo = {}
-
-    # ---------------------------------------------------------------- concrete value of a z3 term at the witness
-    def cev(self, t):
-        i = t.get_id()
-        if i in self.vmemo:
-            return self.vmemo[i]
-        k = t.decl().kind()
-        if z3.is_rational_value(t):
-            v = float(fr(t))
-        elif z3.is_const(t) and k == z3.Z3_OP_UNINTERPRETED:
-            name = t.decl().name()
-            if name in CTX.atoms:
-                v = CTX.atoms[name].c
-            elif i in CTX.fun_of:
-                v = CTX.fun_of[i][2].c
-            else:
-                raise Unsupported("diff: unknown variable %s" % name)
-        elif k == z3.Z3_OP_ADD:
-            v = sum(self.cev(c) for c in t.children())
-        elif k == z3.Z3_OP_MUL:
-            v = 1.0
-            for c in t.children():
-                v *= self.cev(c)
-        elif k == z3.Z3_OP_SUB:
-            ch = t.children()
-            v = self.cev(ch[0]) - sum(self.cev(c) for c in ch[1:])
-        elif k == z3.Z3_OP_UMINUS:
-            v = -self.cev(t.children()[0])
-        elif k == z3.Z3_OP_DIV:
-            a, b = t.children()
-            v = self.cev(a) / self.cev(b)
-        elif k == z3.Z3_OP_POWER:
-            a, b = t.children()
-            v = self.cev(a) ** self.cev(b)
-        elif k == z3.Z3_OP_ITE:
-            c, a, b = t.children()
-            v = self.cev(a) if self.cevb(c) else self.cev(b)
-        elif k == z3.Z3_OP_TO_REAL:
-            v = self.cev(t.children()[0])
-        else:
-            raise Unsupported("diff: term kind %d (%s)" % (k, t.decl().name()))
-        self.vmemo[i] = v
-        return v
-
-    def cevb(self, t):
-        k = t.decl().kind()
-        ch = t.children()
-        if z3.is_true(t):
-            return True
-        if z3.is_false(t):
-            return False
-        if k == z3.Z3_OP_LE:
-            return self.cev(ch[0]) <= self.cev(ch[1])
-        if k == z3.Z3_OP_LT:
-            return self.cev(ch[0]) < self.cev(ch[1])
-        if k == z3.Z3_OP_GE:
-            return self.cev(ch[0]) >= self.cev(ch[1])
-        if k == z3.Z3_OP_GT:
-            return self.cev(ch[0]) > self.cev(ch[1])
-        if k == z3.Z3_OP_EQ:
-            return self.cev(ch[0]) == self.cev(ch[1])
-        if k == z3.Z3_OP_DISTINCT:
-            return self.cev(ch[0]) != self.cev(ch[1])
-        if k == z3.Z3_OP_NOT:
-            return not self.cevb(ch[0])
-        if k == z3.Z3_OP_AND:
-            return all(self.cevb(c) for c in ch)
-        if k == z3.Z3_OP_OR:
-            return any(self.cevb(c) for c in ch)
-        raise Unsupported("diff: boolean kind %d" % k)
-
-    def V(self, t):
-        return Sym(t, ONE, self.cev(t))
 
     # ---------------------------------------------------------------- dependence (prunes constant sub-terms)
     def depends(self, t):
@@ -231,6 +158,8 @@ class NumEval(Differ):
                 v = self.ov[name]
             elif name in CTX.atoms:
                 v = CTX.atoms[name].c
+            elif name in CTX.consts:
+                v = CTX.consts[name][1]
             elif i in CTX.fun_of:
                 fname, arg, res = CTX.fun_of[i]
                 if isinstance(arg, tuple):
